@@ -22,6 +22,16 @@ CHECKS = [
         "Trusted: reference AVM. Unbound inputs count as carrying every value; application creation is not counted as update/delete.",
         "explicit-state exploration of the concrete AVM over the region quotient of all inputs; existence of a dangerous accepting state implies a reported trace",
         "DESIGN.md 3/C01"),
+    chk("C02", "model_checking",
+        "Skeleton-heavy G2 programs (free conditions, 0-3 subroutines, shared/nested/recursive calls, loops), all G1 raw layouts "
+        "and detector spaces: every path reported by each of the nine detectors is an implementation trace that is replayed on "
+        "the reference call-stack automaton (entry start, edges, callsub -> callee entry, retsub -> return point of its own call "
+        "site, terminating last block, no block twice per activation), checked to contain no block whose context excludes the "
+        "dangerous value (predicates rewritten from the property text), to be unique, and to be rendered faithfully in short "
+        "notation and JSON (line numbers and text taken from the source by an independent tokenizer).",
+        "Trusted: reference graph, call-stack automaton, tokenizer. Completeness of the path set is not demanded (C01 demands >= 1).",
+        "trace validation: every implementation trace (reported path) replayed against a reference pushdown automaton over an exhaustively enumerated program space",
+        "DESIGN.md 3/C02"),
     chk("C03", "model_checking",
         "Direct-check programs of the per-detector G2 spaces: O2 explores the abstract per-value transition system (per field "
         "independently), derives per block the exactly admitted values, and searches the matched call/return graph for a walk "
@@ -78,6 +88,16 @@ CHECKS = [
         "Trusted: reference AVM, O2 evaluator. Fee representatives c-1,c,c+1,0,272000,272001,2^64-1.",
         "explicit-state exploration (concrete AVM over fee region representatives; abstract per-value reachability)",
         "DESIGN.md 3/C09"),
+    chk("C10", "model_checking",
+        "Layered G2 spaces over gtxn-form atoms (gtxn i f, int i; gtxns f, GroupIndex +/- k; gtxns f with both operand orders of +, "
+        "GroupIndex; gtxns f) for address, fee and kind fields combined with GroupIndex/GroupSize atoms: E1 explores all groups "
+        "(size 1-16, own index everywhere, member values by region representatives, lazily bound) and checks that "
+        "absolute_context(i), gtxn_context(own index) and relative_context(k) of every block passed admit the respective member; "
+        "members never read must be admitted completely; gtxn_context(i) must be empty for indices O2 proves impossible; an "
+        "attribution table (one asserted atom per read form) checks that exactly the right context is constrained.",
+        "Trusted: reference AVM, O2 index dimension. Reads of up to three members.",
+        "explicit-state exploration of the concrete AVM over whole transaction groups; invariant = tealer's per-member sub-contexts",
+        "DESIGN.md 3/C10"),
 ]
 
 _PENDING = "check not built yet in this session (work in progress; see DESIGN.md section 3 for the planned check)"
